@@ -276,6 +276,7 @@ func init() {
 			"Oracle: the property's timestamp rules; states = distinct model states (has reference, reference value) reached; transitions = records applied; traces = streams decoded",
 		Assumptions: []string{"reference value 0 is outside the alphabet; a local timestamp decoded while the reference is below 0x10000000 (system time) carries no demand (the property is silent)", "a compressed record with no preceding timestamp carries no timestamp demand"},
 		Run:         runC12,
+		Sub:         func(args []string) { tzSub(args) },
 		Replay: func(raw json.RawMessage) (string, error) {
 			if s, ok, err := mixReplay(raw); ok {
 				return s, err
@@ -302,6 +303,7 @@ func runC12(w *vx.W) {
 	mixFamily(w, mixLen)
 	c10MixChains(w) // the same words as members of a chain: nothing may cross a file boundary
 	c12LocalSweep(w)
+	tzFamily(w, "C12")
 	T := uint32(c12T)
 	var alpha []c12Op
 	for _, v := range []uint32{T, T + 1, T + 31, T + 32, T | 31, 0xFFFFFFFE, 0xFFFFFFFF, 0x10000000, 1000, 0x0FFFFFF0} {
